@@ -118,6 +118,10 @@ class UDPBroadcastBootstrapper(Bootstrapper):
         """
         if self.initialized:
             return True
+        if getattr(overlay, "anonymize", False):
+            # Announcing the prefix from our own socket would tie an anonymized overlay to this address
+            logger.warning("Not broadcasting anonymized overlay %s", overlay.__class__.__name__)
+            return False
         self.initialized = True
 
         self.overlay = overlay
